@@ -10,6 +10,7 @@ from props import _delta as D
 
 ID = "C06"
 THEOREMS = [
+    "C06_tables_tied",
     "C06_apply_eq_git_partial", "C06_apply_eq_git_refuted",
     "C06_stream_eq_git_partial", "C06_stream_eq_git_refuted",
     "C06_writer_eq_git_partial",
